@@ -236,8 +236,11 @@ func cmdCheck(argv []string) int {
 			trusted[t] = true
 		}
 	}
+	if *verbose {
+		fmt.Printf("govc: VC generation done at %.1fs (%d obligations)\n", time.Since(t0).Seconds(), len(allObls))
+	}
 	// discharge in parallel
-	par := runtime.NumCPU() / 2
+	par := runtime.NumCPU()
 	if par < 1 {
 		par = 1
 	}
